@@ -429,6 +429,45 @@ func c02Frames(c *Ctx) {
 				problems = append(problems, "undecided: "+p.Abort+panicNote(p))
 			}
 		}
+		if sp.copyP {
+			// the copy is promised whatever the header says: an unmasked frame given to UnmaskFrame,
+			// a frame with a zero key, an already masked frame given to MaskFrame
+			for _, variant := range []string{"flag-inverted", "zero-key"} {
+				variant := variant
+				m2 := c.machine()
+				addWriterLeafModels(m2)
+				ps := m2.Explore(f, func(mm *fold.Machine) []fold.Val {
+					hmask := fold.Arr{E: []fold.Val{fold.K(0), fold.K(0), fold.K(0), fold.K(0)}}
+					masked := sp.unmask
+					if variant == "flag-inverted" {
+						masked = !sp.unmask
+						if masked {
+							hmask = fold.Arr{E: []fold.Val{fold.Int{Lo: 0, Hi: 255, Name: "h0"}, fold.Int{Lo: 0, Hi: 255, Name: "h1"}, fold.Int{Lo: 0, Hi: 255, Name: "h2"}, fold.Int{Lo: 0, Hi: 255, Name: "h3"}}}
+						}
+					}
+					h := headerVal(true, 0, 2, masked, hmask, fold.Int{Lo: 0, Hi: bigLen(), Name: "Length"})
+					fr := fold.Struct{F: []fold.Val{h, fold.SymSeq{Name: "payload", Len: fold.Int{Lo: 0, Hi: 1 << 30, Name: "len(payload)"}}}}
+					if sp.withMask {
+						return []fold.Val{fr, fold.Arr{E: []fold.Val{fold.K(0), fold.K(0), fold.K(0), fold.K(0)}}}
+					}
+					return []fold.Val{fr}
+				}, func(mm *fold.Machine, p *fold.Path) {
+					fr, _ := p.Ret.(fold.Struct)
+					if len(fr.F) != 2 {
+						problems = append(problems, "result is not a frame ("+variant+")")
+						return
+					}
+					if got := fold.Show(fr.F[1]); got == "payload" || strings.HasPrefix(got, "payload[") {
+						problems = append(problems, "with a "+variant+" input the copying variant returns the caller's own payload slice: in-place work on the supposed copy rewrites the caller's bytes")
+					}
+				})
+				for _, p := range ps {
+					if p.Abort != "" || p.Panic {
+						problems = append(problems, "undecided ("+variant+"): "+p.Abort+panicNote(p))
+					}
+				}
+			}
+		}
 		c.verdict(rule, rule+"/"+sp.name, c.P.FuncPos(f), uniq(problems), "mask fields and cipher key agree; copy/in-place as documented")
 	}
 }
